@@ -16,9 +16,9 @@ import (
 )
 
 type zzScenarioT struct {
-	Values map[string]string `json:"values"` // nondet name -> concrete value (strings already concretised)
-	Failed []string          `json:"-"`
-	Reached []string         `json:"-"`
+	Values  map[string]string `json:"values"` // nondet name -> concrete value (strings already concretised)
+	Failed  []string          `json:"-"`
+	Reached []string          `json:"-"`
 }
 
 var zzScn *zzScenarioT
